@@ -44,6 +44,8 @@ def strategy(tier):
         st.tuples(st.just("rferr"), dur, st.just(None)),
         st.tuples(st.just("neterr"), dur, st.just(None)),
         st.tuples(st.just("lossy"), dur, st.lists(st.integers(0, 1), min_size=2, max_size=7)),
+        st.tuples(st.just("noping"), dur, st.lists(st.integers(0, 1), min_size=2, max_size=7)),
+        st.tuples(st.just("slowhs"), dur, st.integers(2, 9)),
     ).map(list)
     when = st.one_of(st.floats(0.0, 9.0), st.floats(0.0, 9.0), st.floats(9.0, 400.0)).map(lambda x: round(x, 2))
     action = st.tuples(when, st.sampled_from(["reset", "reset", "setinfo"])).map(list)
@@ -52,9 +54,23 @@ def strategy(tier):
                                             "CONNECTION_STARTED", "LOCATING_FINISHED", "CLIENT_FACADE_IS_READY"]),
                            st.sampled_from([0.05, 0.3, 0.8]), max_size=2)
     return st.builds(
-        lambda ph, ac, j, su, poke, sm: {"phases": ph, "actions": sorted(ac), "jitter": j, "suspend": su, "poke": poke, "suspend_map": sm},
+        lambda ph, ac, j, su, poke, sm: dict({"phases": ph, "actions": sorted(ac), "jitter": j, "suspend": su, "poke": poke, "suspend_map": sm},
+                                             **({"mode": "active"} if poke % 4 == 3 else {})),
         st.lists(phase, min_size=1, max_size=6), st.lists(action, max_size=3), jitter,
         st.lists(st.sampled_from([0.0, 0.0, 0.0, 0.2, 1.0]), max_size=8), st.integers(0, 255), smap)
+
+
+def enumerated(tier):
+    """hand-shaped family next to the random scripts: the spa is found, then the handshake creeps along (only every (k+1)-th request
+    of a step gets through, pings never do) so that it outlasts the not-responding timeout; once connected the spa disappears"""
+    fam = []
+    for k in (6, 7, 8, 9):
+        for d1 in (260.0, 400.0):
+            for mid in ((), (["healthy", 2.0, None],)):
+                for mode in ("idle", "active"):
+                    fam.append(dict({"phases": [["healthy", 0.45, None], ["slowhs", d1, k]] + [list(m) for m in mid] + [["blackout", 400.0, None]],
+                                     "actions": [], "jitter": [], "suspend": [], "poke": k, "suspend_map": {}}, **({"mode": "active"} if mode == "active" else {})))
+    return len(fam), lambda i: fam[i]
 
 
 def _facade_mirror_problems(man, sim):
@@ -90,6 +106,21 @@ def run_case(case) -> Result:
     t0 = rec["t0"]
     if rec["detect_fail"] is not None:
         res.fail("C09|blackout-not-reported", f"still CONNECTED {rec['detect_fail']:.0f} virtual s into a blackout")
+    # "spa not found" although the spa could be reached: the search repeats its hello every second or so, so a locate phase during
+    # which the network was fault-free for 3 s at a stretch must have found the configured spa
+    from geckolib import GeckoSpaEvent as E
+    man = rec["man"]
+    t_start = None
+    for r in man.pre:
+        if r["event"] == E.LOCATING_STARTED:
+            t_start = r["t"]
+        elif r["event"] == E.SPA_NOT_FOUND and t_start is not None:
+            t_fin = r["t"]
+            best = max((min(b, t_fin - 0.5) - max(a, t_start) for a, b in rec["clear"]), default=0.0)
+            if best >= 3.0:
+                res.fail("C09|not-found-although-reachable", f"SPA_NOT_FOUND after a search from {t_start - t0:.1f}s to {t_fin - t0:.1f}s during which the network was "
+                         f"fault-free for {best:.1f}s at a stretch")
+                break
     if rec["escapes"]:
         # the recorded dead end; the scenario went on after a user-style reset, everything else is judged as usual
         res.fail("C09|not-recovered|ERROR_SPA_NOT_FOUND|spa-absent|pump-alive",
